@@ -25,7 +25,7 @@ macro_rules! drive {
             $r.fail(concat!($api, ".accessor"), $api, format!("{} before any step", $desc), g, w);
         }
         for step in 0..$steps {
-            let front = ($mask >> step) & 1 == 0;
+            let front = ($mask >> (step % 64)) & 1 == 0;
             let kc = k.copy();
             let g = catch(move || if front { kc.next() } else { kc.next_back() });
             let w = if front { s.next() } else { s.next_back() };
@@ -265,6 +265,60 @@ fn array_chunks<T: std::fmt::Debug + Clone + Sync + Send>(cfg: &Cfg, ty: &'stati
     })
 }
 
+/// long slices with sizes around typical block widths, random front/back masks (cycled every 64 steps)
+fn long_iters(cfg: &Cfg) -> Report {
+    let lens: &[usize] = if cfg.miri() { &[17] } else { &[17, 32, 33, 64, 65, 100] };
+    let mut work: Vec<(usize, usize)> = Vec::new();
+    for &len in lens {
+        for size in [1usize, 2, 3, 7, 8, 9, 15, 16, 17, 31, 32, 33, len - 1, len, len + 1] {
+            if !work.contains(&(len, size)) {
+                work.push((len, size));
+            }
+        }
+    }
+    par_for(cfg, work.len(), |wi, r| {
+        let (len, size) = work[wi];
+        let v: Vec<u16> = (0..len).map(|k| k as u16).collect();
+        let sl: &[u16] = &v;
+        let mut rng = Rng::new(cfg.seed ^ ((wi as u64) << 20));
+        let showg = |x: &[u16]| rel(sl, x);
+        let item_eq = |g: &&[u16], w: &&[u16]| same(*g, *w);
+        let masks: Vec<u64> = vec![0, u64::MAX, 0x5555_5555_5555_5555, rng.next(), rng.next(), rng.next()];
+        macro_rules! sub {
+            ($api:literal, $kctor:expr, $sctor:expr, $count:expr, $extra:expr) => {{
+                let steps = $count + 2;
+                for &m in &masks {
+                    let desc = format!("T=u16 len={} size={}", len, size);
+                    drive!(r, $api, desc, m, steps, $kctor, $sctor, item_eq, |x: &[u16]| showg(x), |x: &[u16]| showg(x), $extra);
+                    r.nt(&($api, "long", len, size, m));
+                }
+            }};
+        }
+        let nchunks = (len - 1) / size + 1;
+        let nwin = if size <= len { len - size + 1 } else { 0 };
+        sub!("windows", ks::windows(sl, size), sl.windows(size), nwin, no_extra);
+        sub!("chunks", ks::chunks(sl, size), sl.chunks(size), nchunks, no_extra);
+        sub!("rchunks", ks::rchunks(sl, size), sl.rchunks(size), nchunks, no_extra);
+        sub!("chunks_exact", ks::chunks_exact(sl, size), sl.chunks_exact(size), len / size, no_extra);
+        sub!("rchunks_exact", ks::rchunks_exact(sl, size), sl.rchunks_exact(size), len / size, no_extra);
+        sub!("chunks.rev", ks::chunks(sl, size).rev(), RevI(sl.chunks(size)), nchunks, no_extra);
+        if size == 1 {
+            let steps = len + 2;
+            for &m in &masks {
+                let desc = format!("T=u16 len={}", len);
+                let ieq = |g: &&u16, w: &&u16| core::ptr::eq(*g, *w);
+                let sh = |x: &u16| format!("elem#{}", x);
+                drive!(r, "iter", desc, m, steps, ks::iter(sl), sl.iter(), ieq, sh, sh, |k: &ks::Iter<'_, u16>, s: &std::slice::Iter<'_, u16>| {
+                    if same(k.as_slice(), s.as_slice()) { None } else { Some((rel(sl, k.as_slice()), rel(sl, s.as_slice()))) }
+                });
+                let ieq = |g: &u16, w: &u16| g == w;
+                let sh = |x: u16| format!("{}", x);
+                drive!(r, "iter_copied", desc, m, steps, ks::iter_copied(sl), sl.iter().copied(), ieq, sh, sh, no_extra);
+            }
+        }
+    })
+}
+
 pub fn run(cfg: &Cfg) -> (&'static str, Report, String, String) {
     let maxlen = cfg.by(2, 7, 10);
     let mut rep = run_elem::<u16>(cfg, "u16", &|k| 100 + k as u16, maxlen);
@@ -273,13 +327,14 @@ pub fn run(cfg: &Cfg) -> (&'static str, Report, String, String) {
     // all-equal elements: sub-slices are only distinguishable by address
     rep.merge(run_elem::<u8>(cfg, "u8(all-equal)", &|_| 7u8, cfg.by(2, 5, 7)));
     rep.merge(copied(cfg, maxlen));
+    rep.merge(long_iters(cfg));
     rep.merge(array_chunks::<u16>(cfg, "u16", &|k| 100 + k as u16, cfg.by(3, 9, 12)));
     rep.merge(array_chunks::<()>(cfg, "()", &|_| (), cfg.by(2, 7, 9)));
     rep.merge(array_chunks::<String>(cfg, "String", &|k| format!("s{}", k), cfg.by(2, 5, 7)));
     (
         "C08",
         rep,
-        format!("lengths 0..={} (u16) / shorter for (), String, all-equal u8; sizes 1..=len+2 plus sizes around usize::MAX, usize::MAX/2 and usize::MAX-len; all front/back masks of count+2 steps (sampled above the per-tier cap); array_chunks N in {{1,2,3,4,5,8}}", maxlen),
+        format!("lengths 0..={} (u16) / shorter for (), String, all-equal u8; sizes 1..=len+2 plus sizes around usize::MAX, usize::MAX/2 and usize::MAX-len; all front/back masks of count+2 steps (sampled above the per-tier cap); array_chunks N in {{1,2,3,4,5,8}} over u16/()/String; long slices (17..=100 elements) with sizes around 8/16/32 and len-1/len/len+1 under six masks", maxlen),
         "one evaluation = one next/next_back step of iter / iter_copied / windows / chunks / rchunks / chunks_exact / rchunks_exact / array_chunks or their rev() forms, compared with the std iterator of the same name: item by address range (length only for ZST), as_slice()/remainder() after every step, copy() independence, exhausted stays exhausted (2 extra steps); a panic inside a konst step is a mismatch; non-trivial = distinct (iterator,type,len,size,mask) with >= 2 items and a mask mixing front and back steps".into(),
     )
 }
